@@ -752,6 +752,11 @@ func checkC08Words(c *Ctx, n int) {
 					tail = append(tail, tok{"W", "t" + fmt.Sprint(j)})
 				}
 			}
+			// where a command is required the word is an unknown command WHATEVER stands behind it — also a
+			// fault of another kind (an option nothing declares, a missing argument, a help request)
+			if len(x.Commands()) > 0 && !x.SubcommandsOptional && r.Intn(3) == 0 {
+				tail = append(tail, tok{"U", []string{"--zz-nosuch", "--zz-nosuch=1", "-Z"}[r.Intn(3)]})
+			}
 			for _, t := range tail {
 				argv = append(argv, t.text)
 			}
